@@ -18,7 +18,7 @@ def describe(ev, inv):
 def run_mode(ctx, drv, mode, args=(), timeout=1200, env=None):
     d = ctx.path(mode, "x")
     d = os.path.dirname(d)
-    ctx.driver(drv, ["-mode", mode, "-dir", d] + list(args), timeout=timeout, env=env, ok_codes=(0, 3))
+    ctx.driver(drv, ["-mode", mode.split("-")[0], "-dir", d] + list(args), timeout=timeout, env=env, ok_codes=(0, 3))
     files = sorted(glob.glob(os.path.join(d, "*.ndjson")))
     if not files:
         raise vf.MachineryError("router driver produced no trace in mode " + mode)
